@@ -432,6 +432,8 @@ def run(ctx):
     ctx.guarded('C11-D4', 'json@offsets', d4_offsets, ctx, js)
     ctx.guarded('C11-D5', 'json@effects', d5_effects, ctx, js)
     ctx.guarded('C11-D6', 'json@transports', d6_transports, ctx, js)
+    from .. import samplerule
+    ctx.guarded('C11-D4', 'json@samples', samplerule.check, ctx, 'C11-D4', js)
 
 
 SELFTEST = [
